@@ -338,10 +338,62 @@ class KwArgs(ast.NodeTransformer):
         return node
 
 
+class LockIdiom(_BodyRewriter):
+    """`with <lock>: body`  ->  `<lock>.acquire(); try: body; finally: <lock>.release()`."""
+    def rewrite(self, st, last, owner):
+        if isinstance(st, ast.With) and len(st.items) == 1 and st.items[0].optional_vars is None \
+                and "lock" in ast.unparse(st.items[0].context_expr).lower() \
+                and isinstance(st.items[0].context_expr, (ast.Attribute, ast.Name)):
+            import copy
+            lk = st.items[0].context_expr
+            acq = ast.Expr(ast.Call(func=ast.Attribute(value=copy.deepcopy(lk), attr="acquire", ctx=ast.Load()),
+                                    args=[], keywords=[]))
+            rel = ast.Expr(ast.Call(func=ast.Attribute(value=copy.deepcopy(lk), attr="release", ctx=ast.Load()),
+                                    args=[], keywords=[]))
+            tr = ast.Try(body=st.body, handlers=[], orelse=[], finalbody=[rel])
+            return [ast.copy_location(acq, st), ast.copy_location(tr, st)]
+        return None
+
+
+class ElseAfterJump(_BodyRewriter):
+    """`if c: ...; return/continue/raise` followed by the rest  ->  `if c: ... else: rest`."""
+    def _list(self, stmts, owner):
+        for i, st in enumerate(stmts[:-1]):
+            if isinstance(st, ast.If) and not st.orelse and st.body \
+                    and isinstance(st.body[-1], (ast.Return, ast.Continue, ast.Raise, ast.Break)):
+                rest = self._list(stmts[i + 1:], owner)
+                st.orelse = rest
+                return stmts[:i + 1]
+        return stmts
+
+
+class Ternary(_BodyRewriter):
+    """`x = a if c else b`  ->  if c: x = a else: x = b."""
+    def rewrite(self, st, last, owner):
+        if isinstance(st, ast.Assign) and isinstance(st.value, ast.IfExp):
+            import copy
+            a = ast.Assign(targets=copy.deepcopy(st.targets), value=st.value.body)
+            b = ast.Assign(targets=copy.deepcopy(st.targets), value=st.value.orelse)
+            return [ast.copy_location(ast.If(test=st.value.test, body=[ast.copy_location(a, st)],
+                                             orelse=[ast.copy_location(b, st)]), st)]
+        return None
+
+
+class RetVar(_BodyRewriter):
+    """`return <call or operation>`  ->  `result_rv = <expr>; return result_rv`."""
+    def rewrite(self, st, last, owner):
+        if isinstance(st, ast.Return) and isinstance(st.value, (ast.Call, ast.BinOp, ast.Compare, ast.BoolOp)):
+            a = ast.Assign(targets=[ast.Name(id="result_rv", ctx=ast.Store())], value=st.value)
+            r = ast.Return(value=ast.Name(id="result_rv", ctx=ast.Load()))
+            return [ast.copy_location(a, st), ast.copy_location(r, st)]
+        return None
+
+
 KINDS = {"unparse": None, "extract": Extract, "extract2": Extract2, "extract3": Extract3, "rename": Renamer, "nestif": NestIf, "passes": Passes,
          "flipcmp": FlipCmp, "invertif": InvertIf, "inchain": InChain, "deltopop": DelToPop,
          "earlyret": EarlyReturn, "earlycont": EarlyContinue, "demorgan": DeMorgan, "augassign": AugAssign,
-         "tmpvar": TmpVar, "kwargs": KwArgs}
+         "tmpvar": TmpVar, "kwargs": KwArgs, "lockidiom": LockIdiom, "elsejump": ElseAfterJump,
+         "ternary": Ternary, "retvar": RetVar}
 
 
 def transform(root, kind):
